@@ -946,4 +946,81 @@ theorem C03_accepts (p : Problem) (e : Edit) (hv : Valid p e) : ∃ p', applyEdi
   obtain ⟨as, hp⟩ := key
   exact ⟨execActions p as, by simp [applyEdit, hp]⟩
 
+/-! ## non-vacuity: a concrete state with a shared `imp:n,p=1` entry satisfies every hypothesis -/
+
+def demoSlot : Slot → Option NodeId
+  | .cellNumber 0 => some 0
+  | .cellDensity 0 => some 1
+  | .cellImp 0 "n" => some 2
+  | .cellImp 0 "p" => some 2
+  | .cellVol 0 => some 3
+  | .cellLat 0 => some 4
+  | _ => none
+
+/-- `1 0 -1 imp:n,p=1` with `mode n p`: the two particles share node 2 -/
+def demo : Problem where
+  heap := fun id => { value := if id = 2 then some (.num 1) else if id = 0 then some (.num 1) else none, negatable := false, isNeg := none }
+  next := 5
+  slot := demoSlot
+  tree := demoSlot
+  field := fun f => if f = .mode then .strs (some ["n", "p"]) else if f = .cellMat 0 then .ptr none else .absent
+  impKeys := fun i => if i = 0 then ["n", "p"] else []
+  ncells := 1
+  nsurfs := 0
+  nmats := 0
+  ntrs := 0
+  nunis := 0
+  surfKind := fun _ => .generic
+  nconst := fun _ => 0
+  fillParens := fun _ => false
+
+theorem demo_inv : Inv demo := by
+  constructor
+  · intro s s' id h h'
+    simp only [demo] at h h'
+    unfold demoSlot at h h'
+    split at h <;> split at h' <;> simp_all [impSiblings] <;> (subst h; simp at h')
+  · intro s id h
+    simp only [demo] at h
+    unfold demoSlot at h
+    show id < 5
+    split at h <;> simp_all <;> (subst h; decide)
+  · intro i a
+    simp only [demo]
+    unfold demoSlot
+    split <;> simp_all
+  · intro s _
+    rfl
+
+example : Inv demo := demo_inv
+example : FillTransformsHadParens demo := by intro i u t h; simp [demo] at h
+theorem demo_valid : Valid demo (.importance 0 "n" (.float 2)) := by
+  simp [Valid, inRange, demo, modeParts]; decide
+example : Valid demo (.volume 0 (.float 3)) := by simp [Valid, inRange, demo]; decide
+example : Valid demo (.cellNumber 0 (.int 7)) := by
+  simp [Valid, inRange, demo, numbersInUse, demoSlot, List.range, List.range.loop]
+/-- the shared entry really is shared, and the edit really separates it: photon keeps 1 -/
+example : demo.slot (.cellImp 0 "n") = demo.slot (.cellImp 0 "p") := rfl
+example : sharedImp demo 0 "n" 2 = true := by decide
+example : ∃ p', applyEdit demo (.importance 0 "n" (.float 2)) = .ok p' ∧
+    α p' (.node (.cellImp 0 "n")) = .val (some (.num 2)) ∧ α p' (.node (.cellImp 0 "p")) = .val (some (.num 1)) := by
+  obtain ⟨p', h⟩ := C03_accepts demo (.importance 0 "n" (.float 2)) demo_valid
+  refine ⟨p', h, ?_, ?_⟩
+  · obtain ⟨⟨q, hq, hv⟩, _⟩ := C03_importance demo p' 0 "n" (.float 2) demo_inv h
+    simp [pyNum] at hq
+    subst hq
+    exact hv
+  · rw [(C03_importance demo p' 0 "n" (.float 2) demo_inv h).2 _ (by simp)]
+    simp [α, demo, demoSlot]
+
+/-- what goes wrong without copy-on-write (the code before the fix; DESIGN 7.3 #10): a plain `node.value = v` on
+    the shared node changes the photon importance as well — the frame theorem needs `Importance.__setitem__`'s copy. -/
+theorem C03_shared_write_refuted :
+    ¬ (∀ (p : Problem) (id : NodeId) (v : Option Val) (s : Slot), Inv p → p.slot s = some id →
+        ∀ s', s' ≠ s → α (p.write id v) (.node s') = α p (.node s')) := by
+  intro h
+  have := h demo 2 (some (.num 2)) (.cellImp 0 "n") demo_inv rfl (.cellImp 0 "p") (by simp)
+  rw [α_write] at this
+  simp [α, demo, demoSlot] at this
+
 end MontePyVerif.Edits
